@@ -618,6 +618,7 @@ func genC16(c *Ctx) {
 			c.Count("real-context-route")
 		}
 		refByDepth := map[int]string{}
+		gmDone := 0
 		ref2 := c.Emit("search " + s.tok() + " " + encPos(p2))
 		bud.take(minInt(searchCost(ref2), bud.left))
 		for _, kk := range ks {
@@ -656,6 +657,35 @@ func genC16(c *Ctx) {
 			} else if field(out2, "d") != "0" && field(out2, "d") != "" {
 				emitVerdict(c, bud, p2, atoi(field(out2, "d")), field(out2, "v"))
 				c.Count("followup.verdict")
+			}
+			// GetMove on the reused engine, cancelled inside its first iteration, for a position the earlier search saw
+			// as an interior node (a bot whose opponent played an unexpected reply): no iteration completed, so there is
+			// no move to return - bound entries the table holds for the new root are not results for it
+			if gmDone < 6 {
+				gmDone++
+				q := p2
+				for j := 0; j < 1+r.Intn(2); j++ {
+					ms := q.AllMoves(nil)
+					for a := len(ms) - 1; a > 0; a-- {
+						b := r.Intn(a + 1)
+						ms[a], ms[b] = ms[b], ms[a]
+					}
+					for _, m := range ms {
+						if n, err := q.Move(m); err == nil {
+							if over, _ := n.GameOver(); !over {
+								q = n
+							}
+							break
+						}
+					}
+				}
+				kq := 1 + r.Intn(3)
+				outg := c.Emit(fmt.Sprintf("gm A %s %d", encPos(q), kq))
+				if strings.HasPrefix(outg, "m=0,0,0,0 ") {
+					c.Count("gm-cancelled-early.no-move")
+				} else {
+					c.Count("gm-cancelled-early.move")
+				}
 			}
 		}
 	}
